@@ -260,8 +260,8 @@ func c09Menu() []deviation {
 	add("q:marker", "k", "zzz", "", "d/x")
 	add("q:continuation-token", base64.URLEncoding.EncodeToString([]byte("k")), "!!!", "")
 	add("q:start-after", "k", "zzz")
-	add("q:prefix", "d", "d/", "/", "nomatch", "", "lead/", "lead/q", "/lead", "//")
-	add("q:delimiter", "/", "d", "")
+	add("q:prefix", "d", "d/", "/", "nomatch", "", "lead/", "lead/q", "/lead", "//", "/l", "e")
+	add("q:delimiter", "/", "d", "", "/le", "/l", "/lea", "/lead", "ea", "content", "\xff")
 	add("q:key-marker", "k", "a", "zzz", "", "b/c")
 	add("q:version-id-marker", "", "$VID", "$VIDOLD", "bogus")
 	add("q:upload-id-marker", "$UID", "$UID2", "bogus")
